@@ -2,23 +2,169 @@
 
 use crate::api::*;
 use crate::gen::*;
-use crate::rec::{char_width_oracle, Chunker, Rng};
+use crate::props::{gen_wrap_family, opts_from_json};
+use crate::rec::{alpha, alpha_inv, char_width_oracle, Chunker, Rng};
 use serde_json::{json, Value};
+use textwrap::core::Fragment;
 
-pub fn run_input2(_ch: &mut Chunker, k: &str, _v: &Value) {
-    eprintln!("twh: unknown input kind {:?}", k);
+fn s_of(v: &Value) -> String {
+    v.as_array().map(|a| a.iter().map(|c| char::from_u32(c.as_u64().unwrap() as u32).unwrap()).collect()).unwrap_or_default()
+}
+fn strs(ch: &mut Chunker, ls: &[String]) -> Value {
+    Value::Array(ls.iter().map(|l| ch.cps(l)).collect())
+}
+fn supported(o: &Opts) -> bool {
+    FULL || (o.sep == Sep::Ascii && o.alg == Alg::FF)
 }
 
-pub fn generate2(_ch: &mut Chunker, prop: &str, _r: &mut Rng, _thorough: bool, _scale: usize) {
-    eprintln!("twh: no generator for {}", prop);
-    std::process::exit(2);
+pub fn run_input2(ch: &mut Chunker, k: &str, v: &Value) {
+    match k {
+        "frag" => {
+            let fs: Vec<F> = v["fs"].as_array().unwrap().iter().map(|t| F(t[0].as_f64().unwrap(), t[1].as_f64().unwrap(), t[2].as_f64().unwrap())).collect();
+            let scale = v["scale"].as_f64().unwrap_or(1.0);
+            let fs: Vec<F> = fs.iter().map(|f| F(f.0 / scale, f.1 / scale, f.2 / scale)).collect();
+            let lws: Vec<f64> = v["lws"].as_array().unwrap().iter().map(|x| x.as_f64().unwrap() / scale).collect();
+            let pen = opts_from_json(&json!({"width": 0, "pen": v["pen"], "alg": "opt"}));
+            let p = if let Alg::Opt(p) = pen.alg { p } else { Pen::DEFAULT };
+            if v["alg"] == "ff" || FULL {
+                rec_frag(ch, v["alg"] == "opt", &fs, &lws, p, scale as i64);
+            }
+        }
+        "c05" => {
+            let o = opts_from_json(&v["o"]);
+            if supported(&o) {
+                let pre: Vec<String> = v["pre"].as_array().map(|a| a.iter().map(s_of).collect()).unwrap_or_default();
+                rec_c05(ch, v["kind"] == "fill", &s_of(&v["text"]), &o, &pre);
+            }
+        }
+        "c08" => {
+            let (o1, o2) = (opts_from_json(&v["o1"]), opts_from_json(&v["o2"]));
+            if supported(&o1) {
+                rec_c08(ch, &s_of(&v["text"]), &o1, &o2);
+            }
+        }
+        "c09" => {
+            let o = opts_from_json(&v["o"]);
+            if supported(&o) {
+                rec_c09(ch, &s_of(&v["a"]), &s_of(&v["b"]), &s_of(&v["a2"]), &o);
+            }
+        }
+        "c13" => {
+            let o = opts_from_json(&v["o"]);
+            if supported(&o) {
+                rec_c13(ch, &s_of(&v["col"]), &o);
+            }
+        }
+        "c14" => {
+            let o = opts_from_json(&v["o"]);
+            if supported(&o) {
+                rec_c14(ch, &s_of(&v["text"]), &o);
+            }
+        }
+        "c15" => {
+            let o = opts_from_json(&v["o"]);
+            if supported(&o) {
+                rec_c15(ch, &s_of(&v["para"]), v["trail"].as_bool().unwrap_or(false), &o);
+            }
+        }
+        "c16" => {
+            let (o1, o2) = (opts_from_json(&v["o1"]), opts_from_json(&v["o2"]));
+            if supported(&o1) && supported(&o2) {
+                rec_c16(ch, &s_of(&v["para"]), v["trail"].as_bool().unwrap_or(false), &o1, &o2);
+            }
+        }
+        "unfill" => rec_unfill(ch, &s_of(&v["s"])),
+        "c17" => rec_c17(ch, &s_of(&v["text"]), alpha_inv(v["width"].as_i64().unwrap())),
+        "dedent" => rec_dedent(ch, &s_of(&v["s"])),
+        "c18" => rec_c18(ch, &s_of(&v["s"]), &s_of(&v["p"])),
+        "indent" => rec_indent(ch, &s_of(&v["s"]), &s_of(&v["p"])),
+        "c20" => {
+            let o = opts_from_json(&v["o"]);
+            if supported(&o) {
+                rec_c20(ch, &s_of(&v["text"]), v["cols"].as_u64().unwrap() as usize, &o, &s_of(&v["lg"]), &s_of(&v["mg"]), &s_of(&v["rg"]));
+            }
+        }
+        "scalars" => {
+            let cps: Vec<u32> = v["cp"].as_array().unwrap().iter().map(|c| c.as_u64().unwrap() as u32).collect();
+            scalar_block(ch, &cps);
+        }
+        "dwrel" => {
+            let (a, b, pos) = (s_of(&v["a"]), s_of(&v["b"]), v["pos"].as_u64().unwrap_or(0) as usize);
+            rec_dwrel(ch, v["kind"] == "concat", &a, &b, pos);
+        }
+        "std" => rec_std(ch, v["op"].as_str().unwrap_or(""), &s_of(&v["s"])),
+        _ => eprintln!("twh: unknown input kind {:?}", k),
+    }
+}
+
+pub fn generate2(ch: &mut Chunker, prop: &str, r: &mut Rng, thorough: bool, scale: usize) {
+    match prop {
+        "C03" => {
+            gen_frags(ch, r, "C03", thorough, scale);
+            if FULL {
+                gen_wrap_family(ch, r, "C03", thorough, scale);
+            }
+        }
+        "C04" => gen_c04(ch, r, thorough, scale),
+        "C05" => {
+            gen_c05(ch, r, thorough, scale);
+            gen_wrap_family(ch, r, "C05", thorough, scale);
+        }
+        "C06" => gen_frags(ch, r, "C06", thorough, scale),
+        "C09" => gen_c09(ch, r, thorough, scale),
+        "C13" => gen_c13(ch, r, thorough, scale),
+        "C14" => gen_c14(ch, r, thorough, scale),
+        "C15" => gen_c15(ch, r, thorough, scale),
+        "C16" => gen_c16(ch, r, thorough, scale),
+        "C17" => gen_c17(ch, r, thorough, scale),
+        "C18" => gen_c18(ch, r, thorough, scale),
+        "C19" => gen_c19(ch, r, thorough, scale),
+        "C20" => gen_c20(ch, r, thorough, scale),
+        _ => {
+            eprintln!("twh: no generator for {}", prop);
+            std::process::exit(2);
+        }
+    }
+    gen_std(ch, r);
+}
+
+// ---------------------------------------------------------------------------------------------
+// std model checks
+// ---------------------------------------------------------------------------------------------
+
+pub fn rec_std(ch: &mut Chunker, op: &str, s: &str) {
+    let prefix_chars: &[char] = &[' ', '-', '+', '*', '>', '#', '/'];
+    let res: Vec<String> = match op {
+        "lines" => s.lines().map(String::from).collect(),
+        "split_lf" => s.split('\n').map(String::from).collect(),
+        "split_crlf" => s.split("\r\n").map(String::from).collect(),
+        "split_terminator" => s.split_terminator('\n').map(String::from).collect(),
+        "trim_end_spaces" => vec![s.trim_end_matches(' ').to_string()],
+        "trim" => vec![s.trim().to_string()],
+        "trim_end" => vec![s.trim_end().to_string()],
+        "trim_start_prefix" => vec![s.trim_start_matches(prefix_chars).to_string()],
+        _ => return,
+    };
+    let ev = json!({"ev": "std", "op": op, "s": ch.cps(s), "res": strs(ch, &res)});
+    ch.push(ev);
+}
+
+pub fn gen_std(ch: &mut Chunker, r: &mut Rng) {
+    let ops = ["lines", "split_lf", "split_crlf", "split_terminator", "trim_end_spaces", "trim", "trim_end", "trim_start_prefix"];
+    let alpha_: &[char] = &['a', ' ', '\n', '\r', '\t', '>', '-', '\u{a0}', '\u{3000}'];
+    for _ in 0..40 {
+        let s = gen_alpha(r, alpha_, 8);
+        for op in ops {
+            rec_std(ch, op, &s);
+        }
+    }
 }
 
 // ---------------------------------------------------------------------------------------------
 // C10
 // ---------------------------------------------------------------------------------------------
 
-fn scalar_block(ch: &mut Chunker, cps: &[u32]) {
+pub fn scalar_block(ch: &mut Chunker, cps: &[u32]) {
     let mut wo = Vec::with_capacity(cps.len());
     let mut dw = Vec::with_capacity(cps.len());
     let mut buf = [0u8; 4];
@@ -34,7 +180,7 @@ fn scalar_block(ch: &mut Chunker, cps: &[u32]) {
 
 pub fn scalar_sweep(ch: &mut Chunker, r: &mut Rng, thorough: bool) {
     let mut block = Vec::with_capacity(256);
-    let mut push = |c: u32, ch: &mut Chunker, block: &mut Vec<u32>| {
+    let push = |c: u32, ch: &mut Chunker, block: &mut Vec<u32>| {
         if char::from_u32(c).is_some() {
             block.push(c);
             if block.len() == 256 {
@@ -67,27 +213,993 @@ pub fn scalar_sweep(ch: &mut Chunker, r: &mut Rng, thorough: bool) {
     }
 }
 
-pub fn rec_dw_rel(ch: &mut Chunker, r: &mut Rng) {
+pub fn rec_dwrel(ch: &mut Chunker, concat: bool, a: &str, b: &str, pos: usize) {
     let dw = |s: &str| guarded(&|| format!("display_width({:?})", s), || textwrap::core::display_width(s)).map(|x| x as i64).unwrap_or(-1);
+    let t = if concat {
+        format!("{}{}", a, b)
+    } else {
+        let chars: Vec<char> = a.chars().collect();
+        let pos = pos.min(chars.len());
+        let mut t: String = chars[..pos].iter().collect();
+        t.push_str(b);
+        t.extend(chars[pos..].iter());
+        t
+    };
+    let ev = json!({"ev": "dwrel", "kind": if concat { "concat" } else { "insert" }, "a": ch.cps(a), "b": ch.cps(b), "t": ch.cps(&t), "pos": pos,
+                    "ra": dw(a), "rb": dw(b), "rt": dw(&t)});
+    ch.push(ev);
+}
+
+pub fn rec_dw_rel(ch: &mut Chunker, r: &mut Rng) {
     let plain = TextCfg { max_words: 4, max_paras: 1, ansi: Ansi::None, unicode: true, ctrl: true, crlf: false };
     if r.chance(1, 2) {
         let a = gen_para(r, &plain);
         let b = gen_para(r, &plain);
-        let ab = format!("{}{}", a, b);
-        let ev = json!({"ev": "dwrel", "kind": "concat", "a": ch.cps(&a), "b": ch.cps(&b), "t": ch.cps(&ab), "pos": 0,
-                        "ra": dw(&a), "rb": dw(&b), "rt": dw(&ab)});
-        ch.push(ev);
+        rec_dwrel(ch, true, &a, &b, 0);
     } else {
         let wf = TextCfg { ansi: Ansi::WellFormed, ..plain };
         let s = gen_para(r, &wf);
         let seq = r.pick(ANSI_WF).to_string();
-        let chars: Vec<char> = s.chars().collect();
-        let pos = r.below(chars.len() + 1);
-        let mut t: String = chars[..pos].iter().collect();
-        t.push_str(&seq);
-        t.extend(chars[pos..].iter());
-        let ev = json!({"ev": "dwrel", "kind": "insert", "a": ch.cps(&s), "b": ch.cps(&seq), "t": ch.cps(&t), "pos": pos,
-                        "ra": dw(&s), "rb": dw(&seq), "rt": dw(&t)});
-        ch.push(ev);
+        let pos = r.below(s.chars().count() + 1);
+        rec_dwrel(ch, false, &s, &seq, pos);
     }
+}
+
+// ---------------------------------------------------------------------------------------------
+// fragments (C03, C06, C07)
+// ---------------------------------------------------------------------------------------------
+
+#[derive(Debug, Clone, Copy)]
+pub struct F(pub f64, pub f64, pub f64);
+impl Fragment for F {
+    fn width(&self) -> f64 {
+        self.0
+    }
+    fn whitespace_width(&self) -> f64 {
+        self.1
+    }
+    fn penalty_width(&self) -> f64 {
+        self.2
+    }
+}
+
+fn is_small_int(x: f64, scale: i64) -> bool {
+    let y = x * scale as f64;
+    y.is_finite() && y >= 0.0 && y.fract() == 0.0 && y <= 1.0e6
+}
+fn usize_valued(x: f64) -> bool {
+    x.is_finite() && x >= 0.0 && x.fract() == 0.0 && x < 18446744073709551616.0
+}
+
+/// scale: fragment numbers are logged multiplied by `scale` (1, or 8 for dyadic eighths)
+pub fn rec_frag(ch: &mut Chunker, opt: bool, fs: &[F], lws: &[f64], pen: Pen, scale: i64) {
+    let n = fs.len();
+    let base = fs.as_ptr() as usize;
+    let sz = std::mem::size_of::<F>();
+    let shape_of = |lines: &Vec<&[F]>| -> Vec<(usize, usize)> { lines.iter().map(|l| ((l.as_ptr() as usize - base) / sz, l.len())).collect() };
+    let desc = || format!("{}({:?}, {:?}, {:?})", if opt { "wrap_optimal_fit" } else { "wrap_first_fit" }, fs, lws, pen);
+    let r: Result<Result<Vec<(usize, usize)>, ()>, String> = guarded(&desc, || {
+        if opt {
+            #[cfg(feature = "full")]
+            {
+                match textwrap::wrap_algorithms::wrap_optimal_fit(fs, lws, &pen.to_penalties()) {
+                    Ok(lines) => Ok(shape_of(&lines)),
+                    Err(_) => Err(()),
+                }
+            }
+            #[cfg(not(feature = "full"))]
+            {
+                Err(())
+            }
+        } else {
+            Ok(shape_of(&textwrap::wrap_algorithms::wrap_first_fit(fs, lws)))
+        }
+    });
+    let finite = fs.iter().all(|f| f.0.is_finite() && f.1.is_finite() && f.2.is_finite()) && lws.iter().all(|w| w.is_finite());
+    let exact = fs.iter().all(|f| is_small_int(f.0, scale) && is_small_int(f.1, scale) && is_small_int(f.2, scale))
+        && lws.iter().all(|&w| is_small_int(w, scale))
+        && pen.small()
+        && (scale == 1 || !opt);
+    let usz = fs.iter().all(|f| usize_valued(f.0) && usize_valued(f.1) && usize_valued(f.2)) && lws.iter().all(|&w| usize_valued(w));
+    let fsj: Vec<Value> =
+        if exact { fs.iter().map(|f| json!([(f.0 * scale as f64) as i64, (f.1 * scale as f64) as i64, (f.2 * scale as f64) as i64])).collect() } else { vec![] };
+    let lwj: Vec<i64> = if exact { lws.iter().map(|&w| (w * scale as f64) as i64).collect() } else { vec![] };
+    let raw = if exact { String::new() } else { format!("{:?} {:?} {:?}", fs, lws, pen) };
+    let (status, shape, res): (&str, Vec<Value>, Vec<Value>) = match &r {
+        Ok(Ok(sh)) => (
+            "ok",
+            sh.iter().map(|(o, l)| json!([o, l])).collect(),
+            sh.iter().map(|(o, l)| if *l == 0 { json!([o + 1, *o]) } else { json!([o + 1, o + l]) }).collect(),
+        ),
+        Ok(Err(())) => ("err", vec![], vec![]),
+        Err(_) => ("panic", vec![], vec![]),
+    };
+    let penj = if pen.small() { pen.json() } else { Pen::DEFAULT.json() };
+    ch.push(json!({"ev": "frag", "alg": if opt { "opt" } else { "ff" }, "n": n, "fs": fsj, "lws": lwj, "scale": scale, "pen": penj,
+                   "exact": exact, "finite": finite, "usz": usz, "raw": raw, "shape": shape, "res": res, "status": status}));
+}
+
+fn gen_int_frags(r: &mut Rng, n: usize, maxw: usize, pen_ok: bool) -> Vec<F> {
+    let mut v: Vec<F> = (0..n)
+        .map(|_| {
+            let w = if r.chance(1, 8) { 0 } else { r.range(1, maxw) };
+            let ws = *r.pick(&[0usize, 1, 1, 1, 2, 3]);
+            F(w as f64, ws as f64, 0.0)
+        })
+        .collect();
+    for i in 0..n {
+        if r.chance(1, 5) {
+            let next = if i + 1 < n { v[i + 1].0 } else { 1.0 };
+            if !pen_ok || next >= 1.0 {
+                v[i].2 = 1.0;
+                if r.chance(1, 2) {
+                    v[i].1 = 0.0;
+                }
+            }
+        }
+    }
+    v
+}
+
+pub fn gen_frags(ch: &mut Chunker, r: &mut Rng, prop: &str, thorough: bool, scale: usize) {
+    let do_ff = prop != "C03" || true;
+    let do_opt = FULL && prop != "C07";
+    // exhaustive tiny domain: n <= 4 over w in {0,1,2,3}, ws in {0,1}, all width lists of length 0..2 over 0..4
+    let ws_ = [0.0, 1.0];
+    let wv = [0.0, 1.0, 2.0, 3.0];
+    let nmax = if thorough { 4 } else { 3 };
+    let mut lists: Vec<Vec<f64>> = vec![vec![]];
+    for a in 0..5 {
+        lists.push(vec![a as f64]);
+        for b in 0..5 {
+            lists.push(vec![a as f64, b as f64]);
+        }
+    }
+    let mut frs: Vec<Vec<F>> = vec![vec![]];
+    let mut layer: Vec<Vec<F>> = vec![vec![]];
+    for _ in 0..nmax {
+        let mut next = Vec::new();
+        for f in &layer {
+            for &w in &wv {
+                for &s in &ws_ {
+                    let mut g = f.clone();
+                    g.push(F(w, s, 0.0));
+                    next.push(g);
+                }
+            }
+        }
+        frs.extend(next.iter().cloned());
+        layer = next;
+    }
+    for (i, f) in frs.iter().enumerate() {
+        // subsample the cross product deterministically
+        for (j, l) in lists.iter().enumerate() {
+            if (i * 7 + j) % (if thorough { 3 } else { 5 }) != 0 {
+                continue;
+            }
+            if do_ff && prop != "C03" {
+                rec_frag(ch, false, f, l, Pen::DEFAULT, 1);
+            }
+            if do_opt && !l.is_empty() {
+                rec_frag(ch, true, f, l, if (i + j) % 4 == 0 { gen_pen(r) } else { Pen::DEFAULT }, 1);
+            }
+        }
+    }
+    // random integer fragments, small / medium / large-but-exact
+    for i in 0..1500 * scale {
+        let n = match i % 5 {
+            0 => r.below(4),
+            1 | 2 => r.range(1, 9),
+            3 => r.range(5, 25),
+            _ => r.range(10, 60),
+        };
+        let maxw = *r.pick(&[3usize, 6, 6, 12, 12, 30, 100]);
+        let fs = gen_int_frags(r, n, maxw, true);
+        let base = *r.pick(&[1usize, 4, 8, 10, 15, 20, 40, 80, 120]);
+        let lws: Vec<f64> = match r.below(8) {
+            0 => vec![],
+            1..=3 => vec![base as f64],
+            4..=6 => vec![r.range(0, base + 3) as f64, base as f64],
+            _ => vec![r.range(0, base + 3) as f64, base as f64, r.range(0, base + 3) as f64],
+        };
+        if prop != "C03" {
+            rec_frag(ch, false, &fs, &lws, Pen::DEFAULT, 1);
+        }
+        if do_opt {
+            let pen = match r.below(4) {
+                0 | 1 => Pen::DEFAULT,
+                _ => gen_pen(r),
+            };
+            let lw2: Vec<f64> = if prop == "C03" && (lws.is_empty() || lws.len() > 2) { vec![base as f64] } else { lws.clone() };
+            rec_frag(ch, true, &fs, &lw2, pen, 1);
+        }
+        // dyadic eighths for first-fit (C07)
+        if prop == "C07" && i % 3 == 0 {
+            let fs8: Vec<F> = fs.iter().map(|f| F(f.0 + r.below(8) as f64 / 8.0, f.1 * r.below(9) as f64 / 8.0, f.2 * r.below(9) as f64 / 8.0)).collect();
+            let lw8: Vec<f64> = lws.iter().map(|w| w + r.below(8) as f64 / 8.0).collect();
+            rec_frag(ch, false, &fs8, &lw8, Pen::DEFAULT, 8);
+        }
+    }
+    // adversarial f64 values: shape and totality only (C06 / C04)
+    if prop == "C06" || prop == "C04" {
+        let finite_vals = [0.0, 1.0, -1.0, 0.5, 1e100, 1e300, -1e300, 1.8446744073709552e19, 9007199254740993.0, 1e-300, f64::MAX, f64::MIN_POSITIVE, 3.0, 7.25, -0.0];
+        let nonfinite = [f64::INFINITY, f64::NEG_INFINITY, f64::NAN];
+        for i in 0..1200 * scale {
+            let n = r.below(9);
+            let allow_nf = prop == "C04" && i % 3 == 0;
+            let mut pick = |r: &mut Rng| if allow_nf && r.chance(1, 6) { *r.pick(&nonfinite) } else { *r.pick(&finite_vals) };
+            let fs: Vec<F> = (0..n).map(|_| F(pick(r), pick(r), pick(r))).collect();
+            let lws: Vec<f64> = (0..r.below(4)).map(|_| pick(r)).collect();
+            let big = [0usize, 1, 1000, usize::MAX, usize::MAX / 2, 1 << 53];
+            let pen = if r.chance(1, 2) { Pen::DEFAULT } else { Pen { nline: *r.pick(&big), over: *r.pick(&big), frac: *r.pick(&big), short: *r.pick(&big), hyph: *r.pick(&big) } };
+            rec_frag(ch, false, &fs, &lws, pen, 1);
+            if FULL {
+                rec_frag(ch, true, &fs, &lws, pen, 1);
+            }
+        }
+        // usize-valued but huge: optimal-fit must not report an overflow error
+        for _ in 0..300 * scale {
+            let n = r.range(1, 8);
+            let hv = [0.0, 1.0, 1e6, 4294967296.0, 9007199254740992.0, 1.8446744073709550e19, 1e15];
+            let fs: Vec<F> = (0..n).map(|_| F(*r.pick(&hv), *r.pick(&[0.0, 1.0, 1e6]), *r.pick(&[0.0, 1.0]))).collect();
+            let lws: Vec<f64> = (0..r.range(1, 2)).map(|_| *r.pick(&hv)).collect();
+            let big = [0usize, 1, 1000, usize::MAX, usize::MAX / 2, 1 << 53];
+            let pen = Pen { nline: *r.pick(&big), over: *r.pick(&big), frac: *r.pick(&big), short: *r.pick(&big), hyph: *r.pick(&big) };
+            if FULL {
+                rec_frag(ch, true, &fs, &lws, pen, 1);
+            }
+            rec_frag(ch, false, &fs, &lws, pen, 1);
+        }
+    }
+}
+
+// ---------------------------------------------------------------------------------------------
+// C05 (ii): shortcut vs general path
+// ---------------------------------------------------------------------------------------------
+
+pub fn rec_c05(ch: &mut Chunker, is_fill: bool, text: &str, o: &Opts, pre: &[String]) {
+    let oj = match o.json(ch) {
+        Some(j) => j,
+        None => return,
+    };
+    let r = guarded(&|| format!("c05 {:?} {}", text, o.describe()), || {
+        let options = o.to_options();
+        if is_fill {
+            let fast = textwrap::fill(text, &options);
+            let slow = textwrap::fuzzing::fill_slow_path(text, o.to_options());
+            (vec![fast], vec![slow])
+        } else {
+            let mut a: Vec<std::borrow::Cow<'_, str>> = pre.iter().map(|s| std::borrow::Cow::Owned(s.clone())).collect();
+            let mut b = a.clone();
+            textwrap::fuzzing::wrap_single_line(text, &options, &mut a);
+            textwrap::fuzzing::wrap_single_line_slow_path(text, &options, &mut b);
+            (a.iter().map(|l| l.to_string()).collect(), b.iter().map(|l| l.to_string()).collect())
+        }
+    });
+    let (fast, slow, status) = match r {
+        Ok((f, s)) => (f, s, "ok"),
+        Err(_) => (vec![], vec![], "panic"),
+    };
+    let ev = json!({"ev": "c05", "kind": if is_fill { "fill" } else { "wrap" }, "text": ch.cps(text), "o": oj, "pre": strs(ch, pre),
+                    "fast": strs(ch, &fast), "slow": strs(ch, &slow), "status": status});
+    ch.push(ev);
+}
+
+fn gen_c05(ch: &mut Chunker, r: &mut Rng, _thorough: bool, scale: usize) {
+    let ocfg = OptCfg { indents: true, custom_splitters: true, algs: &[0, 1, 2], crlf: false };
+    for i in 0..500 * scale {
+        let is_fill = i % 2 == 0;
+        let tc = TextCfg { max_words: 5, max_paras: if is_fill { 2 } else { 1 }, ansi: if i % 3 == 0 { Ansi::Any } else { Ansi::WellFormed }, unicode: true, ctrl: false, crlf: false };
+        let text = if i % 5 == 0 { gen_alpha(r, &['a', ' ', '\u{4f60}', '\u{e9}', '-', '\u{301}'], 10) } else if is_fill { gen_text(r, &tc) } else { gen_para(r, &tc) };
+        let dw = display_width_oracle(&text);
+        let bytes = text.len();
+        let mut widths: Vec<usize> = (dw.saturating_sub(1)..=bytes + 2).collect();
+        if widths.len() > 14 {
+            let mut w2 = vec![dw.saturating_sub(1), dw, dw + 1, bytes.saturating_sub(1), bytes, bytes + 1, bytes + 2];
+            for _ in 0..5 {
+                w2.push(r.range(dw, bytes + 2));
+            }
+            widths = w2;
+        }
+        widths.push(usize::MAX);
+        let base = gen_opts(r, &ocfg, 0);
+        for w in widths {
+            let mut o = base.clone();
+            o.width = w;
+            if text.contains('\u{1b}') && matches!(o.splitter, Splitter::Every2 | Splitter::Every3) {
+                o.splitter = Splitter::Hyphen;
+            }
+            // the shortcut is only reachable with an empty applicable indent: cover both situations
+            let pre: Vec<String> = if r.chance(1, 2) { vec![] } else { vec!["x".to_string()] };
+            if r.chance(1, 2) {
+                o.ii.clear();
+            }
+            if r.chance(1, 2) {
+                o.si.clear();
+            }
+            rec_c05(ch, is_fill, &text, &o, &pre);
+        }
+    }
+}
+
+// ---------------------------------------------------------------------------------------------
+// C08 second sentence
+// ---------------------------------------------------------------------------------------------
+
+pub fn rec_c08(ch: &mut Chunker, text: &str, o1: &Opts, o2: &Opts) {
+    let (j1, j2) = match (o1.json(ch), o2.json(ch)) {
+        (Some(a), Some(b)) => (a, b),
+        _ => return,
+    };
+    let r = guarded(&|| format!("c08 {:?} {} / {}", text, o1.describe(), o2.describe()), || {
+        let l1: Vec<String> = textwrap::wrap(text, o1.to_options()).iter().map(|l| l.to_string()).collect();
+        let l2: Vec<String> = textwrap::wrap(text, o2.to_options()).iter().map(|l| l.to_string()).collect();
+        (l1, l2)
+    });
+    let (l1, l2, status) = match r {
+        Ok((a, b)) => (a, b, "ok"),
+        Err(_) => (vec![], vec![], "panic"),
+    };
+    let ev = json!({"ev": "c08", "text": ch.cps(text), "o1": j1, "o2": j2, "l1": strs(ch, &l1), "l2": strs(ch, &l2), "status": status});
+    ch.push(ev);
+}
+
+pub fn gen_c08_pairs(ch: &mut Chunker, r: &mut Rng, scale: usize) {
+    // indent pairs of equal display width and emptiness but different characters / byte lengths
+    let classes: &[&[&str]] = &[&["> ", "# ", "\u{4f60}", "--", "\u{1b}[1m>\u{1b}[0m "], &["-", "*", ">", "\u{e9}"], &["    ", "\u{4f60}\u{597d}", ">>> ", "\u{ff28}//"], &[""], &["\t", "\u{301}", "\u{200b}"]];
+    let ocfg = OptCfg { indents: false, custom_splitters: true, algs: &[0, 1, 2], crlf: true };
+    for i in 0..350 * scale {
+        let tc = TextCfg { max_words: 6, max_paras: 3, ansi: if i % 4 == 0 { Ansi::WellFormed } else { Ansi::None }, unicode: true, ctrl: false, crlf: false };
+        let text = if i % 6 == 0 { gen_alpha(r, ALPHA_WRAP, 12) } else { gen_text(r, &tc) };
+        let ci = r.pick(classes);
+        let cs = r.pick(classes);
+        let (ii1, ii2) = (r.pick(ci).to_string(), r.pick(ci).to_string());
+        let (si1, si2) = (r.pick(cs).to_string(), r.pick(cs).to_string());
+        let widths = widths_for(r, &text, &ii1, &si1, false);
+        for _ in 0..4 {
+            let w_ = *r.pick(&widths);
+            let mut o1 = gen_opts(r, &ocfg, w_);
+            o1.crlf = false;
+            if text.contains('\u{1b}') && matches!(o1.splitter, Splitter::Every2 | Splitter::Every3) {
+                o1.splitter = Splitter::Hyphen;
+            }
+            let mut o2 = o1.clone();
+            o1.ii = ii1.clone();
+            o1.si = si1.clone();
+            o2.ii = ii2.clone();
+            o2.si = si2.clone();
+            rec_c08(ch, &text, &o1, &o2);
+        }
+    }
+}
+
+// ---------------------------------------------------------------------------------------------
+// C09
+// ---------------------------------------------------------------------------------------------
+
+pub fn rec_c09(ch: &mut Chunker, a: &str, b: &str, a2: &str, o: &Opts) {
+    let oj = match o.json(ch) {
+        Some(j) => j,
+        None => return,
+    };
+    let nl = o.ending();
+    let tab = format!("{}{}{}", a, nl, b);
+    let ta2b = format!("{}{}{}", a2, nl, b);
+    let hascr = tab.contains('\r');
+    let tcr = tab.replace('\n', "\r\n");
+    let mut ocr = o.clone();
+    ocr.crlf = true;
+    let r = guarded(&|| format!("c09 {:?} {:?} {:?} {}", a, b, a2, o.describe()), || {
+        let w = |t: &str, o: &Opts| -> Vec<String> { textwrap::wrap(t, o.to_options()).iter().map(|l| l.to_string()).collect() };
+        let (ra, rb, ra2, rab, ra2b) = (w(a, o), w(b, o), w(a2, o), w(&tab, o), w(&ta2b, o));
+        let fab = textwrap::fill(&tab, o.to_options());
+        let (wcr, fcr) = if !hascr && !o.crlf { (w(&tcr, &ocr), textwrap::fill(&tcr, ocr.to_options())) } else { (vec![], String::new()) };
+        (ra, rb, ra2, rab, ra2b, fab, wcr, fcr)
+    });
+    let ev = match r {
+        Ok((ra, rb, ra2, rab, ra2b, fab, wcr, fcr)) => json!({
+            "ev": "c09", "a": ch.cps(a), "b": ch.cps(b), "a2": ch.cps(a2), "o": oj, "tab": ch.cps(&tab), "ta2b": ch.cps(&ta2b),
+            "ra": strs(ch, &ra), "rb": strs(ch, &rb), "ra2": strs(ch, &ra2), "rab": strs(ch, &rab), "ra2b": strs(ch, &ra2b), "fab": ch.cps(&fab),
+            "hascr": hascr, "tcr": ch.cps(&tcr), "wcr": strs(ch, &wcr), "fcr": ch.cps(&fcr), "status": "ok"}),
+        Err(_) => json!({
+            "ev": "c09", "a": ch.cps(a), "b": ch.cps(b), "a2": ch.cps(a2), "o": oj, "tab": ch.cps(&tab), "ta2b": ch.cps(&ta2b),
+            "ra": [], "rb": [], "ra2": [], "rab": [], "ra2b": [], "fab": [], "hascr": hascr, "tcr": ch.cps(&tcr), "wcr": [], "fcr": [], "status": "panic"}),
+    };
+    ch.push(ev);
+}
+
+fn gen_c09(ch: &mut Chunker, r: &mut Rng, _thorough: bool, scale: usize) {
+    let ocfg = OptCfg { indents: true, custom_splitters: true, algs: &[0, 1, 2], crlf: true };
+    for i in 0..450 * scale {
+        let crlf = i % 4 == 0;
+        let tc = TextCfg { max_words: 5, max_paras: 2, ansi: if i % 5 == 0 { Ansi::WellFormed } else { Ansi::None }, unicode: true, ctrl: i % 7 == 0, crlf };
+        let mk = |r: &mut Rng| match r.below(8) {
+            0 => String::new(),
+            1 => "  ".to_string(),
+            2 => gen_alpha(r, ALPHA_WRAP, 8),
+            _ => gen_text(r, &tc),
+        };
+        let (a, b, a2) = (mk(r), mk(r), mk(r));
+        let probe = gen_opts(r, &ocfg, 10);
+        let widths = widths_for(r, &format!("{}\n{}", a, b), &probe.ii, &probe.si, false);
+        for _ in 0..4 {
+            let w_ = *r.pick(&widths);
+            let mut o = gen_opts(r, &ocfg, w_);
+            o.ii = probe.ii.clone();
+            o.si = probe.si.clone();
+            if r.chance(1, 3) {
+                o.ii.clear();
+                o.si.clear();
+            }
+            o.crlf = crlf && r.chance(1, 2);
+            let esc = a.contains('\u{1b}') || b.contains('\u{1b}') || a2.contains('\u{1b}');
+            if esc && matches!(o.splitter, Splitter::Every2 | Splitter::Every3) {
+                o.splitter = Splitter::Hyphen;
+            }
+            rec_c09(ch, &a, &b, &a2, &o);
+            rec_fill(ch, &format!("{}{}{}", a, o.ending(), b), &o, "C09");
+        }
+    }
+}
+
+// ---------------------------------------------------------------------------------------------
+// C13
+// ---------------------------------------------------------------------------------------------
+
+pub fn rec_c13(ch: &mut Chunker, col: &str, o: &Opts) {
+    let oj = match o.json(ch) {
+        Some(j) => j,
+        None => return,
+    };
+    let plain = strip_own(col);
+    let r = guarded(&|| format!("c13 {:?} {}", col, o.describe()), || {
+        let rc: Vec<String> = textwrap::wrap(col, o.to_options()).iter().map(|l| l.to_string()).collect();
+        let rp: Vec<String> = textwrap::wrap(&plain, o.to_options()).iter().map(|l| l.to_string()).collect();
+        (rc, rp)
+    });
+    let (rc, rp, status) = match r {
+        Ok((a, b)) => (a, b, "ok"),
+        Err(_) => (vec![], vec![], "panic"),
+    };
+    let ev = json!({"ev": "c13", "col": ch.cps(col), "plain": ch.cps(&plain), "o": oj, "rc": strs(ch, &rc), "rp": strs(ch, &rp), "status": status});
+    ch.push(ev);
+}
+
+fn colourise(r: &mut Rng, plain: &str) -> String {
+    // insert SGR / OSC-8 sequences before, inside and after words
+    let chars: Vec<char> = plain.chars().collect();
+    let mut out = String::new();
+    for (i, &c) in chars.iter().enumerate() {
+        let prev_space = i == 0 || chars[i - 1] == ' ' || chars[i - 1] == '\n';
+        let is_space = c == ' ' || c == '\n';
+        if !is_space && ((prev_space && r.chance(1, 3)) || r.chance(1, 12)) {
+            out.push_str(*r.pick(ANSI_COLOUR));
+            if r.chance(1, 5) {
+                out.push_str(*r.pick(ANSI_COLOUR));
+            }
+        }
+        out.push(c);
+        let next_space = i + 1 == chars.len() || chars[i + 1] == ' ' || chars[i + 1] == '\n';
+        if !is_space && next_space && r.chance(1, 3) {
+            out.push_str(*r.pick(ANSI_COLOUR));
+        }
+    }
+    out
+}
+
+fn gen_c13(ch: &mut Chunker, r: &mut Rng, _thorough: bool, scale: usize) {
+    let ocfg = OptCfg { indents: true, custom_splitters: false, algs: &[0, 1, 2], crlf: false };
+    for i in 0..450 * scale {
+        let tc = TextCfg { max_words: 6, max_paras: 2, ansi: Ansi::None, unicode: true, ctrl: false, crlf: false };
+        let plain = if i % 6 == 0 { gen_alpha(r, &['a', 'b', ' ', '-', '\u{4f60}', '\u{e9}', '\n'], 12) } else { gen_text(r, &tc) };
+        let col = colourise(r, &plain);
+        let widths = widths_for(r, &plain, "", "", false);
+        for _ in 0..5 {
+            let w_ = *r.pick(&widths);
+            let mut o = gen_opts(r, &ocfg, w_);
+            if o.ii.contains('\u{1b}') {
+                o.ii = "> ".into();
+            }
+            if o.si.contains('\u{1b}') {
+                o.si = "  ".into();
+            }
+            rec_c13(ch, &col, &o);
+        }
+    }
+}
+
+// ---------------------------------------------------------------------------------------------
+// C14
+// ---------------------------------------------------------------------------------------------
+
+pub fn rec_c14(ch: &mut Chunker, text: &str, o: &Opts) {
+    let oj = match o.json(ch) {
+        Some(j) => j,
+        None => return,
+    };
+    let paras = paras_json(ch, text, o);
+    let r = guarded(&|| format!("c14 {:?} {}", text, o.describe()), || {
+        let f1 = textwrap::fill(text, o.to_options());
+        let f2 = textwrap::fill(&f1, o.to_options());
+        (f1, f2)
+    });
+    let (f1, f2, status) = match r {
+        Ok((a, b)) => (a, b, "ok"),
+        Err(_) => (String::new(), String::new(), "panic"),
+    };
+    let ev = json!({"ev": "c14", "text": ch.cps(text), "o": oj, "paras": paras, "f1": ch.cps(&f1), "f2": ch.cps(&f2), "status": status});
+    ch.push(ev);
+}
+
+fn gen_c14(ch: &mut Chunker, r: &mut Rng, thorough: bool, scale: usize) {
+    let seps: &[Sep] = if FULL { &[Sep::Ascii, Sep::Uax] } else { &[Sep::Ascii] };
+    // exhaustive small texts
+    let texts = all_strings(&['a', ' ', '-', '\n', '\u{4f60}'], if thorough { 6 } else { 5 });
+    for (i, t) in texts.iter().enumerate() {
+        for w in 0..5 {
+            if (i + w) % (if thorough { 2 } else { 4 }) != 0 {
+                continue;
+            }
+            let mut o = Opts::new(w);
+            o.sep = seps[(i + w) % seps.len()];
+            o.alg = if FULL && (i / 3 + w) % 2 == 0 { Alg::Opt(Pen::DEFAULT) } else { Alg::FF };
+            o.bw = (i / 5 + w) % 3 != 0;
+            o.splitter = if i % 2 == 0 { Splitter::Hyphen } else { Splitter::None };
+            rec_c14(ch, t, &o);
+        }
+    }
+    let ocfg = OptCfg { indents: false, custom_splitters: false, algs: &[0, 0, 1, 2], crlf: true };
+    for i in 0..400 * scale {
+        let crlf = i % 5 == 0;
+        let tc = TextCfg { max_words: 7, max_paras: 3, ansi: if i % 4 == 0 { Ansi::WellFormed } else { Ansi::None }, unicode: true, ctrl: false, crlf };
+        let text = if i % 6 == 0 { gen_alpha(r, ALPHA_WRAP, 14) } else { gen_text(r, &tc) };
+        let widths = widths_for(r, &text, "", "", true);
+        for _ in 0..5 {
+            let w_ = *r.pick(&widths);
+            let mut o = gen_opts(r, &ocfg, w_);
+            o.crlf = crlf && r.chance(1, 2);
+            rec_c14(ch, &text, &o);
+        }
+    }
+}
+
+// ---------------------------------------------------------------------------------------------
+// C15 / C16
+// ---------------------------------------------------------------------------------------------
+
+fn unfill_json(ch: &mut Chunker, text: &str, o: &textwrap::Options<'_>) -> Value {
+    json!({"text": ch.cps(text), "ii": ch.cps(o.initial_indent), "si": ch.cps(o.subsequent_indent), "width": alpha(o.width).unwrap_or(-1),
+           "crlf": o.line_ending == textwrap::LineEnding::CRLF})
+}
+
+pub fn rec_unfill(ch: &mut Chunker, s: &str) {
+    let r = guarded(&|| format!("unfill({:?})", s), || {
+        let (t, o) = textwrap::unfill(s);
+        (t, o.initial_indent.to_string(), o.subsequent_indent.to_string(), o.width, o.line_ending == textwrap::LineEnding::CRLF)
+    });
+    let ev = match r {
+        Ok((t, ii, si, w, crlf)) => json!({"ev": "unfill", "s": ch.cps(s), "text": ch.cps(&t), "ii": ch.cps(&ii), "si": ch.cps(&si), "width": alpha(w).unwrap_or(-1), "crlf": crlf, "status": "ok"}),
+        Err(_) => json!({"ev": "unfill", "s": ch.cps(s), "text": [], "ii": [], "si": [], "width": 0, "crlf": false, "status": "panic"}),
+    };
+    ch.push(ev);
+}
+
+pub fn rec_c15(ch: &mut Chunker, para: &str, trail: bool, o: &Opts) {
+    let oj = match o.json(ch) {
+        Some(j) => j,
+        None => return,
+    };
+    let r = guarded(&|| format!("c15 {:?} {}", para, o.describe()), || {
+        let core = textwrap::fill(para, o.to_options());
+        let filled = if trail { format!("{}{}", core, o.ending()) } else { core.clone() };
+        (core, filled)
+    });
+    let (core, filled) = match r {
+        Ok(x) => x,
+        Err(_) => {
+            let ev = json!({"ev": "c15", "para": ch.cps(para), "trail": trail, "o": oj, "core": [], "filled": [], "u": {"text": [], "ii": [], "si": [], "width": 0, "crlf": false}, "status": "panic"});
+            ch.push(ev);
+            return;
+        }
+    };
+    let r2 = guarded(&|| format!("unfill({:?})", filled), || {
+        let (t, uo) = textwrap::unfill(&filled);
+        (t, uo.initial_indent.to_string(), uo.subsequent_indent.to_string(), uo.width, uo.line_ending == textwrap::LineEnding::CRLF)
+    });
+    let ev = match r2 {
+        Ok((t, ii, si, w, crlf)) => {
+            let u = json!({"text": ch.cps(&t), "ii": ch.cps(&ii), "si": ch.cps(&si), "width": alpha(w).unwrap_or(-1), "crlf": crlf});
+            json!({"ev": "c15", "para": ch.cps(para), "trail": trail, "o": oj, "core": ch.cps(&core), "filled": ch.cps(&filled), "u": u, "status": "ok"})
+        }
+        Err(_) => json!({"ev": "c15", "para": ch.cps(para), "trail": trail, "o": oj, "core": ch.cps(&core), "filled": ch.cps(&filled), "u": {"text": [], "ii": [], "si": [], "width": 0, "crlf": false}, "status": "panic"}),
+    };
+    ch.push(ev);
+    let _ = unfill_json;
+}
+
+const PLAIN_VOCAB: &[&str] = &["a", "I", "to", "be", "or", "not", "foo", "bar", "baz", "x1", "42", "the", "quick", "brown", "hello", "world", "wrapping", "it's", "a.b", "x_y", "end.", "(z)", "q?", "r2d2", "caf\u{e9}"];
+
+fn gen_plain_para(r: &mut Rng, maxw: usize) -> String {
+    let n = r.range(1, maxw);
+    (0..n).map(|_| r.pick(PLAIN_VOCAB).to_string()).collect::<Vec<_>>().join(" ")
+}
+
+fn gen_refill_opts(r: &mut Rng, width: usize) -> Opts {
+    let mut o = Opts::new(width);
+    o.ii = r.pick(PREFIX_INDENTS).to_string();
+    o.si = r.pick(PREFIX_INDENTS).to_string();
+    o.bw = r.chance(1, 4);
+    o.sep = if FULL && r.chance(1, 3) { Sep::Uax } else { Sep::Ascii };
+    o.splitter = Splitter::None;
+    o.alg = if FULL { *r.pick(&[Alg::FF, Alg::Opt(Pen::DEFAULT), Alg::Opt(Pen::DEFAULT)]) } else { Alg::FF };
+    o.crlf = r.chance(1, 3);
+    o
+}
+
+fn gen_c15(ch: &mut Chunker, r: &mut Rng, thorough: bool, scale: usize) {
+    for _ in 0..500 * scale {
+        let para = gen_plain_para(r, 9);
+        let probe = gen_refill_opts(r, 10);
+        let mut widths = widths_for(r, &para, &probe.ii, &probe.si, false);
+        widths.retain(|&w| w >= 3);
+        for _ in 0..5 {
+            let w_ = *r.pick(&widths);
+            let mut o = gen_refill_opts(r, w_);
+            if r.chance(1, 2) {
+                o.ii = probe.ii.clone();
+                o.si = probe.si.clone();
+            }
+            rec_c15(ch, &para, r.chance(1, 3), &o);
+        }
+    }
+    // structural half: arbitrary strings
+    for s in all_strings(&['a', ' ', '-', '>', '\n', '\r'], if thorough { 6 } else { 5 }) {
+        rec_unfill(ch, &s);
+    }
+    for i in 0..800 * scale {
+        let s = match i % 4 {
+            0 => gen_alpha(r, &['a', ' ', '-', '>', '#', '\n', '\r', '\u{4f60}', '/', '*', '+'], 14),
+            1 => gen_alpha(r, ALPHA_ADVERSARIAL, 14),
+            _ => {
+                let tc = TextCfg { max_words: 4, max_paras: 4, ansi: Ansi::Any, unicode: true, ctrl: true, crlf: i % 3 == 0 };
+                let t = gen_text(r, &tc);
+                if r.chance(1, 2) {
+                    textwrap::indent(&t, *r.pick(PREFIX_INDENTS))
+                } else {
+                    t
+                }
+            }
+        };
+        rec_unfill(ch, &s);
+    }
+}
+
+pub fn rec_c16(ch: &mut Chunker, para: &str, trail: bool, o1: &Opts, o2: &Opts) {
+    let mut o2x = o2.clone();
+    o2x.ii = o1.ii.clone();
+    o2x.si = o1.si.clone();
+    let (j1, j2, j2x) = match (o1.json(ch), o2.json(ch), o2x.json(ch)) {
+        (Some(a), Some(b), Some(c)) => (a, b, c),
+        _ => return,
+    };
+    let r = guarded(&|| format!("c16 {:?} {} -> {}", para, o1.describe(), o2.describe()), || {
+        let core = textwrap::fill(para, o1.to_options());
+        let filled = if trail { format!("{}{}", core, o1.ending()) } else { core.clone() };
+        let refilled = textwrap::refill(&filled, o2.to_options());
+        let direct = textwrap::fill(para, o2x.to_options());
+        (core, filled, refilled, direct)
+    });
+    let ev = match r {
+        Ok((core, filled, refilled, direct)) => json!({"ev": "c16", "para": ch.cps(para), "trail": trail, "o1": j1, "o2": j2, "o2x": j2x, "core": ch.cps(&core),
+            "filled": ch.cps(&filled), "refilled": ch.cps(&refilled), "direct": ch.cps(&direct), "status": "ok"}),
+        Err(_) => json!({"ev": "c16", "para": ch.cps(para), "trail": trail, "o1": j1, "o2": j2, "o2x": j2x, "core": [], "filled": [], "refilled": [], "direct": [], "status": "panic"}),
+    };
+    ch.push(ev);
+}
+
+fn gen_c16(ch: &mut Chunker, r: &mut Rng, _thorough: bool, scale: usize) {
+    for _ in 0..500 * scale {
+        let para = gen_plain_para(r, 10);
+        let probe = gen_refill_opts(r, 10);
+        let mut widths = widths_for(r, &para, &probe.ii, &probe.si, false);
+        widths.retain(|&w| w >= 3);
+        for _ in 0..5 {
+            let w_ = *r.pick(&widths);
+            let mut o1 = gen_refill_opts(r, w_);
+            o1.ii = probe.ii.clone();
+            o1.si = probe.si.clone();
+            let w2_ = *r.pick(&widths);
+            let mut o2 = gen_refill_opts(r, w2_);
+            o2.bw = o1.bw;
+            rec_c16(ch, &para, r.chance(1, 3), &o1, &o2);
+        }
+    }
+}
+
+// ---------------------------------------------------------------------------------------------
+// C17
+// ---------------------------------------------------------------------------------------------
+
+pub fn rec_c17(ch: &mut Chunker, text: &str, width: usize) {
+    let wj = match alpha(width) {
+        Some(w) => w,
+        None => return,
+    };
+    let r = guarded(&|| format!("fill_inplace({:?}, {})", text, width), || {
+        let mut s = text.to_string();
+        textwrap::fill_inplace(&mut s, width);
+        let o = textwrap::Options::new(width)
+            .break_words(false)
+            .word_separator(textwrap::WordSeparator::AsciiSpace)
+            .wrap_algorithm(textwrap::WrapAlgorithm::FirstFit)
+            .word_splitter(textwrap::WordSplitter::NoHyphenation);
+        let wl: Vec<String> = textwrap::wrap(text, o).iter().map(|l| l.to_string()).collect();
+        (s, wl)
+    });
+    let ev = match r {
+        Ok((s, wl)) => json!({"ev": "c17", "text": ch.cps(text), "width": wj, "res": ch.cps(&s), "wl": strs(ch, &wl), "status": "ok"}),
+        Err(_) => json!({"ev": "c17", "text": ch.cps(text), "width": wj, "res": [], "wl": [], "status": "panic"}),
+    };
+    ch.push(ev);
+}
+
+fn gen_c17(ch: &mut Chunker, r: &mut Rng, thorough: bool, scale: usize) {
+    for t in all_strings(&['a', ' ', '\u{e9}', '\n'], if thorough { 7 } else { 6 }) {
+        for w in 0..5 {
+            if thorough || (t.len() + w) % 2 == 0 {
+                rec_c17(ch, &t, w);
+            }
+        }
+    }
+    for i in 0..600 * scale {
+        let tc = TextCfg { max_words: 7, max_paras: 3, ansi: if i % 5 == 0 { Ansi::Any } else { Ansi::None }, unicode: true, ctrl: i % 4 == 0, crlf: i % 6 == 0 };
+        let text = if i % 5 == 1 { gen_alpha(r, ALPHA_ADVERSARIAL, 14) } else { gen_text(r, &tc) };
+        for w in widths_for(r, &text, "", "", true).into_iter().take(12) {
+            rec_c17(ch, &text, w);
+        }
+    }
+}
+
+// ---------------------------------------------------------------------------------------------
+// C18 / C19
+// ---------------------------------------------------------------------------------------------
+
+pub fn rec_dedent(ch: &mut Chunker, s: &str) {
+    let r = guarded(&|| format!("dedent({:?})", s), || textwrap::dedent(s));
+    let ev = match r {
+        Ok(res) => json!({"ev": "dedent", "s": ch.cps(s), "res": ch.cps(&res), "status": "ok"}),
+        Err(_) => json!({"ev": "dedent", "s": ch.cps(s), "res": [], "status": "panic"}),
+    };
+    ch.push(ev);
+}
+
+pub fn rec_c18(ch: &mut Chunker, s: &str, p: &str) {
+    let r = guarded(&|| format!("c18 {:?} {:?}", s, p), || {
+        let ind = textwrap::indent(s, p);
+        let d1 = textwrap::dedent(s);
+        let d2 = textwrap::dedent(&d1);
+        let d3 = textwrap::dedent(&ind);
+        (ind, d1, d2, d3)
+    });
+    let ev = match r {
+        Ok((ind, d1, d2, d3)) => json!({"ev": "c18", "s": ch.cps(s), "p": ch.cps(p), "ind": ch.cps(&ind), "d1": ch.cps(&d1), "d2": ch.cps(&d2), "d3": ch.cps(&d3), "status": "ok"}),
+        Err(_) => json!({"ev": "c18", "s": ch.cps(s), "p": ch.cps(p), "ind": [], "d1": [], "d2": [], "d3": [], "status": "panic"}),
+    };
+    ch.push(ev);
+}
+
+pub fn rec_indent(ch: &mut Chunker, s: &str, p: &str) {
+    let r = guarded(&|| format!("indent({:?}, {:?})", s, p), || textwrap::indent(s, p));
+    let ev = match r {
+        Ok(res) => json!({"ev": "indent", "s": ch.cps(s), "p": ch.cps(p), "res": ch.cps(&res), "status": "ok"}),
+        Err(_) => json!({"ev": "indent", "s": ch.cps(s), "p": ch.cps(p), "res": [], "status": "panic"}),
+    };
+    ch.push(ev);
+}
+
+fn gen_margin_text(r: &mut Rng) -> String {
+    let margins = ["", " ", "  ", "    ", "\t", " \t", "\t ", "  \t", "\u{a0}", "\u{3000} ", "   "];
+    let bodies = ["foo", "bar baz", "x", "  y", "\tz", "end ", "a\tb", "\u{4f60}", ""];
+    let n = r.range(1, 6);
+    let mut s = String::new();
+    let base = r.pick(&margins).to_string();
+    for i in 0..n {
+        match r.below(10) {
+            0 => {}                                   // empty line
+            1 => s.push_str(*r.pick(&margins)),        // whitespace-only line of any shape
+            2 => s.push_str(&base),                   // whitespace-only line equal to the margin
+            _ => {
+                s.push_str(&base);
+                if r.chance(1, 3) {
+                    s.push_str(*r.pick(&margins));
+                }
+                s.push_str(*r.pick(&bodies));
+            }
+        }
+        if i + 1 < n || r.chance(1, 2) {
+            s.push_str(if r.chance(1, 6) { "\r\n" } else { "\n" });
+        }
+    }
+    s
+}
+
+fn gen_c18(ch: &mut Chunker, r: &mut Rng, thorough: bool, scale: usize) {
+    let prefixes = ["", " ", "  ", "\t", " \t", "\u{a0}", "    ", "\u{3000}"];
+    for s in all_strings(&['a', ' ', '\t', '\n', '\r'], if thorough { 7 } else { 6 }) {
+        rec_dedent(ch, &s);
+        if s.len() % 2 == 0 {
+            rec_c18(ch, &s, prefixes[s.len() % prefixes.len()]);
+        }
+    }
+    for i in 0..1500 * scale {
+        let s = if i % 5 == 0 { gen_alpha(r, &['a', 'b', ' ', ' ', '\t', '\n', '\r', '\u{a0}', '\u{4f60}'], 16) } else { gen_margin_text(r) };
+        rec_dedent(ch, &s);
+        rec_c18(ch, &s, *r.pick(&prefixes));
+    }
+}
+
+fn gen_c19(ch: &mut Chunker, r: &mut Rng, thorough: bool, scale: usize) {
+    let prefixes = ["", " ", "# ", "\t", "//  ", "> ", "  ", "\u{4f60} ", "\u{a0}", "x"];
+    for s in all_strings(&['a', ' ', '\t', '\n', '\r'], if thorough { 6 } else { 5 }) {
+        for (k, p) in prefixes.iter().enumerate() {
+            if thorough || (s.len() + k) % 3 == 0 {
+                rec_indent(ch, &s, p);
+            }
+        }
+    }
+    for i in 0..1200 * scale {
+        let s = if i % 4 == 0 { gen_alpha(r, &['a', ' ', '\t', '\n', '\r', '\u{a0}', '\u{4f60}', '-'], 16) } else { gen_margin_text(r) };
+        rec_indent(ch, &s, *r.pick(&prefixes));
+    }
+}
+
+// ---------------------------------------------------------------------------------------------
+// C20
+// ---------------------------------------------------------------------------------------------
+
+pub fn rec_c20(ch: &mut Chunker, text: &str, cols: usize, o: &Opts, lg: &str, mg: &str, rg: &str) {
+    let oj = match o.json(ch) {
+        Some(j) => j,
+        None => return,
+    };
+    // the column width at which the reference wrap call is made (re-checked by the specification)
+    let dw = |s: &str| textwrap::core::display_width(s);
+    let inner = o.width.saturating_sub(dw(lg)).saturating_sub(dw(rg)).saturating_sub(dw(mg).saturating_mul(cols.saturating_sub(1)));
+    let cw = if cols == 0 { 1 } else { std::cmp::max(inner / cols, 1) };
+    let mut oc = o.clone();
+    oc.width = cw;
+    let wl: Vec<String> = guarded(&|| format!("wrap for c20 {:?}", text), || textwrap::wrap(text, oc.to_options()).iter().map(|l| l.to_string()).collect()).unwrap_or_default();
+    let r = guarded(&|| format!("wrap_columns({:?}, {}, {}, {:?}, {:?}, {:?})", text, cols, o.describe(), lg, mg, rg), || {
+        textwrap::wrap_columns(text, cols, o.to_options(), lg, mg, rg)
+    });
+    let (rows, status) = match r {
+        Ok(rows) => (rows, "ok"),
+        Err(_) => (vec![], "panic"),
+    };
+    let ev = json!({"ev": "c20", "text": ch.cps(text), "cols": cols, "o": oj, "lg": ch.cps(lg), "mg": ch.cps(mg), "rg": ch.cps(rg),
+                    "cw": alpha(cw).unwrap_or(-1), "wl": strs(ch, &wl), "rows": strs(ch, &rows), "status": status});
+    ch.push(ev);
+}
+
+fn gen_c20(ch: &mut Chunker, r: &mut Rng, thorough: bool, scale: usize) {
+    let gaps = ["", "|", " | ", "\u{4f60}", "  ", "| ", " |", "\u{e9}"];
+    let mk = |bw: bool, width: usize| {
+        let mut o = Opts::new(width);
+        o.bw = bw;
+        o
+    };
+    for t in all_strings(&['a', ' ', '\u{ff28}'], if thorough { 5 } else { 4 }) {
+        for cols in 1..=3 {
+            for w in 0..9 {
+                if !thorough && (t.len() + cols + w) % 3 != 0 {
+                    continue;
+                }
+                for bw in [true, false] {
+                    let g = (t.len() + cols + w) % 3;
+                    rec_c20(ch, &t, cols, &mk(bw, w), ["", "|", "\u{4f60}"][g], ["", "|", "\u{4f60}"][(g + 1) % 3], ["", "|", "\u{4f60}"][(g + 2) % 3]);
+                }
+            }
+        }
+    }
+    let ocfg = OptCfg { indents: false, custom_splitters: false, algs: &[0, 1], crlf: false };
+    for i in 0..500 * scale {
+        let tc = TextCfg { max_words: 8, max_paras: 2, ansi: Ansi::None, unicode: true, ctrl: false, crlf: false };
+        let text = if i % 5 == 0 { gen_alpha(r, ALPHA_WRAP, 14) } else { gen_text(r, &tc) };
+        for _ in 0..4 {
+            let cols = *r.pick(&[1usize, 1, 2, 2, 3, 4, 5, 7]);
+            let width = *r.pick(&[0usize, 1, 2, 3, 5, 8, 10, 13, 20, 21, 30, 40, 80]);
+            let mut o = gen_opts(r, &ocfg, width);
+            if r.chance(1, 4) {
+                o.ii = "> ".into();
+                o.si = "  ".into();
+            }
+            rec_c20(ch, &text, cols, &o, *r.pick(&gaps), *r.pick(&gaps), *r.pick(&gaps));
+        }
+    }
+    rec_c20(ch, "foo", 0, &Opts::new(10), "", "", "");
+}
+
+// ---------------------------------------------------------------------------------------------
+// C04: adversarial totality
+// ---------------------------------------------------------------------------------------------
+
+fn gen_c04(ch: &mut Chunker, r: &mut Rng, thorough: bool, scale: usize) {
+    let seps: &[Sep] = if FULL { &[Sep::Ascii, Sep::Uax] } else { &[Sep::Ascii] };
+    let widths = [0usize, 1, 2, 3, 5, 8, 20, usize::MAX - 1, usize::MAX];
+    let small_alpha: &[char] = &['a', ' ', '\u{1b}', '[', '\n', '\r', '\u{4f60}', '\u{301}', '-'];
+    let mut texts: Vec<String> = all_strings(small_alpha, if thorough { 4 } else { 3 });
+    for _ in 0..500 * scale {
+        texts.push(gen_alpha(r, ALPHA_ADVERSARIAL, 16));
+    }
+    for _ in 0..200 * scale {
+        let tc = TextCfg { max_words: 6, max_paras: 4, ansi: Ansi::Any, unicode: true, ctrl: true, crlf: true };
+        texts.push(gen_text(r, &tc));
+    }
+    let ocfg = OptCfg { indents: true, custom_splitters: false, algs: &[0, 1, 2], crlf: true };
+    for (i, t) in texts.iter().enumerate() {
+        rec_dw(ch, t);
+        for &sep in seps {
+            rec_words(ch, t, sep);
+        }
+        rec_split(ch, t, Splitter::Hyphen);
+        rec_break(ch, t, *r.pick(&widths), r.chance(1, 2));
+        rec_unfill(ch, t);
+        rec_dedent(ch, t);
+        rec_indent(ch, t, *r.pick(&["", " ", "# ", "\t", "\u{1b}", "\n"]));
+        rec_c17(ch, t, *r.pick(&widths));
+        for _ in 0..3 {
+            let w_ = *r.pick(&widths);
+            let mut o = gen_opts(r, &ocfg, w_);
+            if r.chance(1, 3) {
+                let big = [0usize, 1, 1000, usize::MAX, usize::MAX / 2, 1 << 53, 7];
+                if let Alg::Opt(_) = o.alg {
+                    o.alg = Alg::Opt(Pen { nline: *r.pick(&big), over: *r.pick(&big), frac: *r.pick(&big), short: *r.pick(&big), hyph: *r.pick(&big) });
+                }
+            }
+            rec_call(ch, "wrap", t, &o);
+            rec_call(ch, "fill", t, &o);
+            rec_call(ch, "refill", t, &o);
+            if i % 3 == 0 {
+                let mut oc = o.clone();
+                oc.width = *r.pick(&[0usize, 1, 2, 5, 10, 40]);
+                let cols = r.range(1, 4);
+                rec_call_columns(ch, t, cols, &oc, *r.pick(&["", "|", "\u{4f60}"]), *r.pick(&["", " | "]), *r.pick(&["", "|"]));
+            }
+        }
+    }
+    gen_frags(ch, r, "C04", thorough, scale);
+}
+
+/// generic call event: arguments as a readable string, status only (for huge penalties / widths that cannot be logged numerically)
+pub fn rec_call(ch: &mut Chunker, f: &str, text: &str, o: &Opts) {
+    if !supported(o) {
+        return;
+    }
+    let desc = format!("{}({:?}, {})", f, text, o.describe());
+    let r = guarded(&|| desc.clone(), || match f {
+        "wrap" => {
+            let _ = textwrap::wrap(text, o.to_options());
+        }
+        "fill" => {
+            let _ = textwrap::fill(text, o.to_options());
+        }
+        "refill" => {
+            let _ = textwrap::refill(text, o.to_options());
+        }
+        _ => {}
+    });
+    let ev = json!({"ev": "call", "f": f, "desc": desc, "text": ch.cps(text), "allowed": false, "status": if r.is_ok() { "ok" } else { "panic" }});
+    ch.push(ev);
+}
+
+pub fn rec_call_columns(ch: &mut Chunker, text: &str, cols: usize, o: &Opts, lg: &str, mg: &str, rg: &str) {
+    if !supported(o) {
+        return;
+    }
+    let desc = format!("wrap_columns({:?}, {}, {}, {:?}, {:?}, {:?})", text, cols, o.describe(), lg, mg, rg);
+    let r = guarded(&|| desc.clone(), || {
+        let _ = textwrap::wrap_columns(text, cols, o.to_options(), lg, mg, rg);
+    });
+    let ev = json!({"ev": "call", "f": "wrap_columns", "desc": desc, "text": ch.cps(text), "allowed": cols == 0, "status": if r.is_ok() { "ok" } else { "panic" }});
+    ch.push(ev);
 }
